@@ -55,12 +55,13 @@ theorem len_eq (b : DBase) (stages : List Stage) (e0 e : EagerD) (r : DRow)
     (hr : buildD stages (baseD b) = .ok (some r)) :
     r.len = e.cells.length := (dense_ref' b stages e0 e r hb he hr).len
 
-/-- the header map: `row.headers` maps the eager column names to their positions; a table without
-header has no `headers` attribute -/
+/-- the header map: `row.headers` is the eager header map name → column (any Mapping HeadRows was given: in any order,
+naming all or only some of the columns; after DropRows the kept entries renumbered); a table without header has no
+`headers` attribute -/
 theorem headers_eq (b : DBase) (stages : List Stage) (e0 e : EagerD) (r : DRow)
     (hb : eagerBaseD b = .ok e0) (he : eagerD stages e0 = .ok (some e))
     (hr : buildD stages (baseD b) = .ok (some r)) :
-    r.headers.toOption = e.names.map zipNames := (dense_ref' b stages e0 e r hb he hr).hdr
+    r.headers.toOption = e.hdr := (dense_ref' b stages e0 e r hb he hr).hdr
 
 /-- by equality: `row == o` (also `o == row`, and against another lazy row) is `list == list` on the eager row -/
 theorem eq_iff (b : DBase) (stages : List Stage) (e0 e : EagerD) (r : DRow)
@@ -107,8 +108,15 @@ theorem access_order_irrelevant (r : DRow) (as : List Acc) : runD r as = as.map 
 drop column b, label column c: the eager row is `[1,3]` with names a,c and so is the lazy one -/
 example : ∃ e0 e r, eagerBaseD exBase = .ok e0 ∧ eagerD exStages e0 = .ok (some e) ∧
     buildD exStages (baseD exBase) = .ok (some r) ∧
-    e.cells = [.int 1, .int 3] ∧ e.names = some ["a", "c"] ∧ r.iter = .ok [.int 1, .int 3] :=
+    e.cells = [.int 1, .int 3] ∧ e.hdr = some [("a", 0), ("c", 1)] ∧ r.iter = .ok [.int 1, .int 3] :=
   ⟨_, _, _, rfl, rfl, rfl, rfl, rfl, rfl⟩
+
+/-- … and with a header Mapping given out of column order that names only two of the three columns (`HeadRows({'z':2,'x':0})`),
+`EncodeRows({'z':int})`, `DropRows(['x'])`: the eager row is `['2', 3]` with header map `{'z':1}` -/
+example : ∃ e0 e r, eagerBaseD exBase = .ok e0 ∧ eagerD exStagesMap e0 = .ok (some e) ∧
+    buildD exStagesMap (baseD exBase) = .ok (some r) ∧
+    e.cells = [.str "2", .int 3] ∧ e.hdr = some [("z", 1)] ∧ r.iter = .ok e.cells ∧ r.getName "z" = .ok (.int 3) :=
+  ⟨_, _, _, rfl, rfl, rfl, rfl, rfl, rfl, rfl⟩
 
 /-! ## sparse rows
 
